@@ -78,6 +78,9 @@ type SugarDB struct {
 
 	// memUsed tracks the memory usage of the data in the store.
 	memUsed int64
+	// keyMem holds the size that is currently accounted for in memUsed for each key of each database,
+	// so that memUsed always equals the sum of the sizes of the keys currently stored.
+	keyMem map[int]map[string]int64
 
 	// Holds all the keys that are currently associated with an expiry.
 	keysWithExpiry struct {
@@ -168,6 +171,7 @@ func NewSugarDB(options ...func(sugarDB *SugarDB)) (*SugarDB, error) {
 		storeLock: &sync.RWMutex{},
 		store:     make(map[int]map[string]internal.KeyData),
 		memUsed:   0,
+		keyMem:    make(map[int]map[string]int64),
 		keysWithExpiry: struct {
 			rwMutex sync.RWMutex
 			keys    map[int][]string
